@@ -66,7 +66,45 @@ var c21StateByID = func() map[string]*c21State {
 // c21Reset is evaluated before the state's Setup in both shells: the fixed
 // part of the environment. The y* variables are the names used by the
 // indirection forms; nothing else has a name starting with x, y or zz.
-const c21Reset = `unset x a A nonexistent; set --; y=x; yu=nonexistent; ye=; ya='a[1]'; yat='a[@]'; y0=a; yA='A[k]'; yAt='A[@]'; yp=1; yq=@`
+const c21Reset = `unset x a A nonexistent; set --; y=x; yu=nonexistent; ye=; ya='a[1]'; yat='a[@]'; y0=a; yA='A[k]'; yAt='A[@]'; yp=1; yq=@; w='?'`
+
+// c21WordVar is the variable the argument words (c21ArgWords) expand: its
+// value is one pattern character, so that the same words can be used as
+// replacement, default and pattern words (as a pattern $w matches any one
+// character, "$w" only a literal question mark).
+var c21WordVar = [2]string{"w", "?"}
+
+// c21ArgWord is an operator argument word and the text it expands to.
+type c21ArgWord struct{ Src, Val string }
+
+// c21ArgWords: the multi-part argument words (round 3). The argument of an
+// operator is a word of its own, expanded through a path that depends on the
+// operator (replacement, default/alternative word, pattern); the words below
+// have one expansion, expansion+literal in both orders, two expansions, a
+// double-quoted escape, a double-quoted expansion with a blank, and empty
+// quotes. The one-literal words (d, Z) are in the operator lists already.
+var c21ArgWords = []c21ArgWord{
+	{`$w`, "?"}, {`$w-`, "?-"}, {`a$w`, "a?"}, {`$w$w`, "??"}, {`"\$w"`, "$w"}, {`"$w z"`, "? z"}, {`''`, ""},
+}
+
+func c21ArgWordSrcs() []string {
+	var out []string
+	for _, w := range c21ArgWords {
+		out = append(out, w.Src)
+	}
+	return out
+}
+
+// c21ArgWordVal is the expansion of an argument word of c21ArgWords (ok
+// false for any other text).
+func c21ArgWordVal(src string) (string, bool) {
+	for _, w := range c21ArgWords {
+		if w.Src == src {
+			return w.Val, true
+		}
+	}
+	return "", false
+}
 
 // c21IndirVars: name -> value, as assigned by c21Reset.
 var c21IndirVars = [][2]string{
@@ -150,6 +188,13 @@ func c21SliceNum(n int) string {
 type c21Bounds struct {
 	RemPat, ReplPat, CasePat int
 	DefaultArgs              []string
+	// the argument-word dimension (c21ArgWords)
+	WordDefaultOps []string // default/assign/alternative operators taking every argument word
+	WordReplOps    []string // replace operators x WordReplPats x every argument word as the replacement
+	WordReplPats   []string
+	WordPatOps     []string // operators taking every argument word as the pattern (replace forms: replacement Z)
+	WordBoth       bool     // / and // with every (pattern word, replacement word) pair
+	SliceFar       []int    // extra offsets beyond the length of every value
 }
 
 // c21FullOps is the operator list applied to primary targets.
@@ -173,9 +218,47 @@ func c21FullOps(b c21Bounds) []c21Op {
 			add("", ":"+c21SliceNum(o)+":"+c21SliceNum(l))
 		}
 	}
+	for _, o := range b.SliceFar {
+		// offsets beyond either end of every value, with the three kinds of length
+		add("", ":"+c21SliceNum(o))
+		for _, l := range []int{-1, 0, 1, 3} {
+			add("", ":"+c21SliceNum(o)+":"+c21SliceNum(l))
+		}
+	}
 	for _, op := range []string{"#", "##", "%", "%%"} {
 		for _, p := range c21Patterns(b.RemPat, true) {
 			add("", op+p)
+		}
+	}
+	words := c21ArgWordSrcs()
+	for _, op := range b.WordDefaultOps {
+		for _, w := range words {
+			add("", op+w)
+		}
+	}
+	for _, op := range b.WordReplOps {
+		for _, p := range b.WordReplPats {
+			for _, w := range words {
+				add("", op+p+"/"+w)
+			}
+		}
+	}
+	for _, op := range b.WordPatOps {
+		for _, w := range words {
+			if strings.HasPrefix(op, "/") {
+				add("", op+w+"/Z")
+			} else {
+				add("", op+w)
+			}
+		}
+	}
+	if b.WordBoth {
+		for _, op := range []string{"/", "//"} {
+			for _, p := range words {
+				for _, w := range words {
+					add("", op+p+"/"+w)
+				}
+			}
 		}
 	}
 	for _, op := range []string{"/", "//", "/#", "/%"} {
